@@ -4044,4 +4044,26 @@ theorem csubsel_cvalidx (k n : ℤ) (R L : CSeq) :
 
 end ParitySamplers
 
+
+/-! # Fifteenth batch: opaque events -/
+
+/-- one `write()` of text the contract does not look into (any fixed event; this choice also differs
+    from `evcomment`, every `ev3` and every `evrow`, although no schema asks for that) -/
+def evopaque : ISeq := [0]
+/-- `k` such events in a row -/
+def opq (k : ℤ) : CSeq := List.replicate k.toNat evopaque
+
+/-- `k == 0 -> opq(k) == cnil` -/
+theorem opq_zero (k : ℤ) : k = 0 → opq k = cnil := by
+  rintro rfl; rfl
+
+/-- `k >= 0 -> opq(k + 1) == csnoc(opq(k), evopaque)` -/
+theorem opq_succ (k : ℤ) : k ≥ 0 → opq (k + 1) = csnoc (opq k) evopaque := by
+  intro h
+  have h1 : (k + 1).toNat = k.toNat + 1 := by omega
+  unfold opq csnoc
+  rw [h1, List.replicate_succ']
+
+/-! uninterpreted in specs.py, NO schema emitted: `wid`. -/
+
 end CnfSem
